@@ -210,6 +210,29 @@ pub fn execute(board: &Board, p: &Position, legal: &[Mv], initial_mask: Option<u
                     if n != vis.len() {
                         return fail("len-mismatch", format!("count() = {n}, {} move(s) remain under the mask", vis.len()), "other");
                     }
+                    // the other Iterator methods must walk the same moves as repeated next() on a clone
+                    let drained: Vec<Mv> = real.clone().map(mv_back).collect();
+                    let folded = real.clone().fold(0usize, |k, _| k + 1);
+                    let last = real.clone().last().map(mv_back);
+                    if folded != drained.len() || last != drained.last().copied() {
+                        return fail(
+                            "len-mismatch",
+                            format!("fold visits {folded} moves and last() = {:?}, but next() on a clone yields {} moves ending with {:?}", last.map(|m| m.uci()), drained.len(), drained.last().map(|m| m.uci())),
+                            "other",
+                        );
+                    }
+                    for k in [0usize, 1, drained.len().saturating_sub(1), drained.len(), drained.len() + 1] {
+                        let mut it = real.clone();
+                        let got = it.nth(k).map(mv_back);
+                        let after = it.next().map(mv_back);
+                        if got != drained.get(k).copied() || after != drained.get(k + 1).copied() {
+                            return fail(
+                                "len-mismatch",
+                                format!("nth({k}) = {:?} then next() = {:?}, but next() on a clone yields {:?}", got.map(|m| m.uci()), after.map(|m| m.uci()), drained.iter().map(|m| m.uci()).collect::<Vec<_>>()),
+                                "other",
+                            );
+                        }
+                    }
                 }
                 Op::Drain => {
                     // exhaust under the current mask
